@@ -310,7 +310,9 @@ func (c *worldCase) coq() string {
 }
 
 var probeObjs = func() []func(ident int) AObj {
-	mk := func(kind string, d int) func(int) AObj { return func(i int) AObj { return AObj{Kind: kind, Secret: i + d} } }
+	mk := func(kind string, d int) func(int) AObj {
+		return func(i int) AObj { return AObj{Kind: kind, Secret: i + d} }
+	}
 	fix := func(kind string, s int) func(int) AObj { return func(int) AObj { return AObj{Kind: kind, Secret: s} } }
 	return []func(int) AObj{fix("nil", 0), fix("guest", 0), fix("transport", 0),
 		mk("plain", 0), mk("plain", 1), mk("plain", 2), mk("plain", 7), fix("plain", 1000),
